@@ -48,38 +48,17 @@ func Send(rw io.ReadWriter, streamData *stream.Info, ws bool, version stream.Ver
 		return err
 	}
 
-	if id != "" {
-		_, err = fmt.Fprintf(b, " id='%s'", id)
-		if err != nil {
-			return err
-		}
+	if err = writeAttr(b, "id", id); err != nil {
+		return err
 	}
-	if to != "" {
-		_, err = fmt.Fprintf(b, " to='%s'", to)
-		if err != nil {
-			return err
-		}
+	if err = writeAttr(b, "to", to); err != nil {
+		return err
 	}
-	if from != "" {
-		_, err = fmt.Fprintf(b, " from='%s'", from)
-		if err != nil {
-			return err
-		}
+	if err = writeAttr(b, "from", from); err != nil {
+		return err
 	}
-
-	if len(lang) > 0 {
-		_, err = b.Write([]byte(" xml:lang='"))
-		if err != nil {
-			return err
-		}
-		err = xml.EscapeText(b, []byte(lang))
-		if err != nil {
-			return err
-		}
-		_, err = b.Write([]byte("'"))
-		if err != nil {
-			return err
-		}
+	if err = writeAttr(b, "xml:lang", lang); err != nil {
+		return err
 	}
 
 	if ws {
@@ -92,6 +71,23 @@ func Send(rw io.ReadWriter, streamData *stream.Info, ws bool, version stream.Ver
 	}
 
 	return b.Flush()
+}
+
+// writeAttr writes the attribute name='value' preceded by a space, escaping
+// the value, or nothing if value is empty.
+func writeAttr(b *bufio.Writer, name, value string) error {
+	if value == "" {
+		return nil
+	}
+	_, err := fmt.Fprintf(b, " %s='", name)
+	if err != nil {
+		return err
+	}
+	err = xml.EscapeText(b, []byte(value))
+	if err != nil {
+		return err
+	}
+	return b.WriteByte('\'')
 }
 
 // Expect reads a token from d and expects that it will be a new stream start
